@@ -518,6 +518,27 @@ def is_logging_call(call):
     return "logger" in txt or txt.startswith("logging")
 
 
+LOGRECORD_RESERVED = frozenset((
+    "name", "msg", "args", "levelname", "levelno", "pathname", "filename", "module", "exc_info", "exc_text", "stack_info", "lineno",
+    "funcName", "created", "msecs", "relativeCreated", "thread", "threadName", "processName", "process", "message", "asctime", "taskName"))
+
+
+def unsafe_log_extra(call):
+    """the logging call passes `extra=`: anything but None / a dict display whose keys are literal strings none of which names
+    a LogRecord attribute can make Logger.makeRecord raise KeyError - in the caller, outside logging's own error handling"""
+    for k in call.keywords:
+        if k.arg == "extra":
+            v = k.value
+            if isinstance(v, ast.Constant) and v.value is None:
+                return False
+            if isinstance(v, ast.Dict) and all(isinstance(x, ast.Constant) and isinstance(x.value, str) and x.value not in LOGRECORD_RESERVED for x in v.keys):
+                return False
+            return True
+        if k.arg is None:
+            return True
+    return False
+
+
 def calls_in(node):
     return [n for n in ast.walk(node) if isinstance(n, ast.Call)]
 
